@@ -266,3 +266,41 @@ theorem gaussDensity_eq_mvnPdf {n N : Nat} (inv : Mat ℝ n n → Mat ℝ n n) (
   rfl
 
 end BFL.Models
+
+namespace BFL.Models
+open Matrix
+
+/-! ### the square-root expression of the code, given an LDLᵀ factorisation -/
+
+theorem toM_ldltSqrt {n : Nat} (P L : Mat ℝ n n) (d : Vec ℝ n) :
+    toM (ldltSqrt P L d) = (toM P)ᵀ * toM L * Matrix.diagonal (fun i => Real.sqrt (d i)) := by
+  simp only [ldltSqrt, toM_mul, toM_transpose, toM_one, Matrix.mul_one]
+  congr 1
+
+theorem ldltSqrt_contract {n : Nat} (P L Q : Mat ℝ n n) (d : Vec ℝ n) (hd : ∀ i, 0 ≤ d i)
+    (hQ : (toM P)ᵀ * toM L * Matrix.diagonal (fun i => d i) * (toM L)ᵀ * toM P = toM Q) :
+    toM (ldltSqrt P L d) * (toM (ldltSqrt P L d))ᵀ = toM Q := by
+  rw [toM_ldltSqrt, ← hQ]
+  have hdd : Matrix.diagonal (fun i => Real.sqrt (d i)) * Matrix.diagonal (fun i => Real.sqrt (d i))
+      = Matrix.diagonal (fun i => d i) := by
+    rw [Matrix.diagonal_mul_diagonal]
+    congr 1
+    funext i
+    exact Real.mul_self_sqrt (hd i)
+  simp only [Matrix.transpose_mul, Matrix.transpose_transpose, Matrix.diagonal_transpose]
+  calc (toM P)ᵀ * toM L * diagonal (fun i => Real.sqrt (d i)) * (diagonal (fun i => Real.sqrt (d i)) * ((toM L)ᵀ * toM P))
+      = (toM P)ᵀ * toM L * (diagonal (fun i => Real.sqrt (d i)) * diagonal (fun i => Real.sqrt (d i))) * ((toM L)ᵀ * toM P) := by
+        simp only [Matrix.mul_assoc]
+    _ = (toM P)ᵀ * toM L * diagonal (fun i => d i) * (toM L)ᵀ * toM P := by
+        rw [hdd]; simp only [Matrix.mul_assoc]
+
+/-! ### one step of the simulated trajectory with an additive linear state model -/
+
+theorem addSimStep_eq {n : Nat} (F S : Mat ℝ n n) (stream : Nat → ℝ) (k : Nat) (x : Vec ℝ n) :
+    toV (addSimStep F S stream k x)
+      = toM F *ᵥ toV x + toM S *ᵥ (fun i : Fin n => stream (k * n + i.val)) := by
+  funext i
+  simp [addSimStep, addMotion, linPropagate, noiseSample, Rng.draw, fillCM, wnaSample,
+    Mat.mul_apply, fsum_eq_sum, Matrix.mulVec, dotProduct]
+
+end BFL.Models
